@@ -178,7 +178,7 @@ static void pmake_invalid(phist *h, cop *o, uint32_t *mode, vh_rng *r)
         case 3: o->len = c->key_max + 1 + vh_below(r, 3); o->cls = "key-too-long"; break;
         case 4: o->len = vh_below(r, 2) ? big[vh_below(r, 5)] : vh_wrap_len(r, c->key_min, c->key_max); o->cls = "key-len-huge"; break;
         case 5: o->len = 16; o->rounds = vh_below(r, 5); o->cls = "mantis-rounds-low"; break;
-        default: o->len = 16; o->rounds = vh_below(r, 2) ? 9 + vh_below(r, 4) : big[vh_below(r, 5)]; o->cls = "mantis-rounds-high"; break;
+        default: o->len = 16; o->rounds = vh_below(r, 3) == 0 ? 9 + vh_below(r, 4) : (vh_below(r, 2) ? big[vh_below(r, 5)] : ((1 + vh_below(r, 3)) << (8 * (1 + vh_below(r, 3)))) + 5 + vh_below(r, 4)); o->cls = "mantis-rounds-high"; break;   /* also values whose low 8/16/24 bits are a legal count */
         }
         cap = o->len > 64 ? 1 + vh_below(r, 64) : o->len;
         o->dlen = (o->flags & F_NULL_PTR) ? 0 : cap;
